@@ -63,7 +63,9 @@ EXPECTED = {
     "eio": (OSError,),
 }
 ETERNITY = str(periods.period("ETERNITY"))
-BAD_PERIOD = {"month": "2018", "year": "2018-01", "day": "2018-01", "week": "2018", "weekday": "2018"}
+# periods the engine refuses for a variable of that definition period (a day
+# variable is only refused a size other than one - which belongs to C03, n/a)
+BAD_PERIOD = {"month": "2018", "year": "2018-01", "day": "day:2018-01-01:2", "week": "2018", "weekday": "weekday:2018-W01-1:2"}
 
 
 # --------------------------------------------------------------------------- #
